@@ -236,6 +236,30 @@ def via(concepts, ctx, case):
 VIA_SOURCES = collections.deque(maxlen=4)
 
 
+def attach_overrides(concepts, base_cls, names, factory):
+    """Overrides of a monitored method in the member subclasses (Infimum, Atom, Supremum, ...) are functions
+    of their own: a refactoring that adds one must not take those receivers out of the monitor's sight.
+    ``factory()`` makes a fresh monitor for each override found (none exists on the pinned tree apart from
+    ``Infimum.minimal``, which C18 handles itself)."""
+    found = 0
+    for mod in (concepts.lattice_members, concepts.lattices):
+        for _, cls in sorted(vars(mod).items()):
+            if not (isinstance(cls, type) and issubclass(cls, base_cls) and cls is not base_cls):
+                continue
+            for name in names:
+                fn = vars(cls).get(name)
+                if fn is None or getattr(fn, '__rv_wrapper__', False) or not callable(fn):
+                    continue
+                try:
+                    attach.attach(cls, name, factory())
+                    found += 1
+                except Exception as e:
+                    COL.harness_error(f'attach_overrides {cls.__name__}.{name}', e)
+    if found:
+        COL.count('subclass_overrides_monitored', found)
+    return found
+
+
 def build_or_skip(concepts, case):
     """Context for a valid table; a raise here is C19's business, not ours."""
     try:
